@@ -5,12 +5,13 @@ the all-pairs closed-interval scan."""
 import random
 import simdrv
 from .base import Check, key_str
+from .c06 import parse_tsan
 
 
 class C14(Check):
     prop = "C14"
     level = "exploration"
-    flavours = ["par", "par-asan"]
+    flavours = ["par", "par-asan", "par-tsan"]
     assumptions = [
         "only the schedule-dependent half of the property is decided here: internal boxes built by the lock-free arrival-counter "
         "pass and pairs recorded concurrently, for seeded leaf sets; the exhaustive small-lattice enumeration of leaf sets in the "
@@ -32,7 +33,7 @@ class C14(Check):
                 args = {"n": n, "kind": rng.randrange(8), "queries": rng.choice([8, 32, 128, 600]), "dseed": rng.randrange(1 << 30),
                         "W": rng.choice([1, 2, 3, 4, 8, 16]), "stay": rng.choice([0, 30, 60, 85]), "own": rng.choice([30, 70, 95]),
                         "seed": rng.randrange(1, 1 << 30), "thr": thr, "sync": rng.choice([0, 0.001, 0.01, 0.1, 1] if n <= 64 else ([0, 0.001, 0.01, 0.05] if n <= 300 else [0, 0.0005, 0.002]))}
-                fl = "par-asan" if rng.random() < 0.15 else "par"
+                fl = "par-asan" if rng.random() < 0.15 else ("par-tsan" if rng.random() < 0.12 and n <= 1500 else "par")
                 jobs.append({"flavour": fl, "kind": "c14", "args": args, "timeout": 120})
             res = self.pool.run_all(jobs, deadline=self.deadline)
             for j, r in zip(jobs, res):
@@ -61,6 +62,15 @@ class C14(Check):
                     nontrivial.add(h)
                 kinds[str(j["args"]["kind"])] = kinds.get(str(j["args"]["kind"]), 0) + 1
                 sizes[str(j["args"]["n"])] = sizes.get(str(j["args"]["n"]), 0) + 1
+                if j["flavour"] == "par-tsan":
+                    stats["tsan_runs"] = stats.get("tsan_runs", 0) + 1
+                    races, _other = parse_tsan(r.get("stderr", ""))
+                    for site in set(races):
+                        # this job runs nothing but the collider / BVH build and queries: any race between two
+                        # worker threads here is a race on the index or on the recorder
+                        self.add_finding({"clause": "data_race", "sites": site}, "ThreadSanitizer data race inside the concurrent BVH "
+                                         "build/query at %s (n=%d kind=%d seed=%d W=%d)" % (site, j["args"]["n"], j["args"]["kind"], j["args"]["seed"], j["args"]["W"]),
+                                         {"property": "C14", "flavour": j["flavour"], "args": j["args"]})
                 mm = r["res"]["mismatch"]
                 if mm:
                     key = {"clause": mm.split(":")[0], "detail": mm.split(":")[-1]}
@@ -81,9 +91,16 @@ class C14(Check):
         })
 
     def reproduce(self, replay, fresh=False):
+        fresh = fresh or replay["flavour"] == "par-tsan"
         r = self.run_job({"flavour": replay["flavour"], "kind": "c14", "args": replay["args"], "timeout": 120}, fresh)
         if not r["ok"]:
             return {"clause": "crash_" + simdrv.classify_crash(r), "site": simdrv.asan_site(r.get("stderr", ""))}, "crash"
+        if replay["flavour"] == "par-tsan":
+            races, _ = parse_tsan(r.get("stderr", ""))
+            exp = replay.get("expect") or {}
+            for site in sorted(set(races)):
+                if not exp or exp.get("sites") == site or exp.get("clause") != "data_race":
+                    return {"clause": "data_race", "sites": site}, r["res"]["sim"]["hash"]
         mm = r["res"]["mismatch"]
         if not mm:
             return None, r["res"]["sim"]["hash"]
